@@ -21,6 +21,7 @@ package repository_test
 import (
 	"context"
 	"fmt"
+	"os"
 	"sort"
 	"strings"
 	"testing"
@@ -47,6 +48,35 @@ type verifC12Proc struct {
 	heldOnce  bool
 	crashed   bool
 	done      bool
+	frozen    bool      // inside a forced stale-lock refresh (its backend is frozen, it cannot write)
+	lockedAt  time.Time // stale-holder: when LockRepo returned
+}
+
+// verifC12SlowBE is the backend of the "stale-holder": it can be frozen (so the harness sees the forced
+// stale-lock refresh begin and end) and its lock-file uploads take 10 minutes once the lock is older than 22
+// minutes (the replacement lock of the forced refresh reaches the storage late).
+type verifC12SlowBE struct {
+	backend.Backend
+	p *verifC12Proc
+}
+
+func (b *verifC12SlowBE) Freeze() {
+	b.p.frozen = true
+	if os.Getenv("VERIF_DEBUG_TRACE") != "" {
+		fmt.Fprintf(os.Stderr, "DBG %s freeze at %s\n", b.p.name, time.Now().Format("15:04:05"))
+	}
+}
+func (b *verifC12SlowBE) Unfreeze() {
+	b.p.frozen = false
+	if os.Getenv("VERIF_DEBUG_TRACE") != "" {
+		fmt.Fprintf(os.Stderr, "DBG %s unfreeze at %s ctxerr=%v\n", b.p.name, time.Now().Format("15:04:05"), b.p.lockCtx.Err())
+	}
+}
+func (b *verifC12SlowBE) Save(ctx context.Context, h backend.Handle, rd backend.RewindReader) error {
+	if h.Type == backend.LockFile && !b.p.lockedAt.IsZero() && time.Since(b.p.lockedAt) > 22*time.Minute {
+		time.Sleep(10 * time.Minute)
+	}
+	return b.Backend.Save(ctx, h, rd)
 }
 
 type verifC12Exec struct {
@@ -88,6 +118,12 @@ func TestVerif_C12(t *testing.T) {
 		// the second process starts whenever the scheduler lets it - in particular in the middle of a refresh
 		// of the first one's lock (every 5 minutes), when the holder replaces its lock file
 		{"shared-refreshing-vs-late-excl", []verifC12Proc{{name: "P1", exclusive: false, role: "timed-locker"}, {name: "P2", exclusive: true, role: "late-locker"}}, 0},
+		// a holder whose refreshes fail for 22 minutes enters the forced stale-lock refresh; its replacement lock
+		// takes 10 minutes to reach the storage; meanwhile the old lock file turns stale, `unlock` (minute 31)
+		// removes it and an exclusive locker (minute 32) acquires.  The holder must then give up (context
+		// cancelled) when the forced refresh ends; while it is inside the forced refresh (backend frozen) it does
+		// not count as a holder.
+		{"stale-refresh-vs-unlock-vs-late-excl", []verifC12Proc{{name: "P1", exclusive: false, role: "stale-holder"}, {name: "P2", exclusive: true, role: "timed-late-locker"}, {name: "P3", role: "timed-unlocker"}}, 0},
 		{"excl-vs-shared/list-delay-100ms", []verifC12Proc{{name: "P1", exclusive: true, role: "locker"}, {name: "P2", exclusive: false, role: "locker"}}, 100 * time.Millisecond},
 	}
 	if r.Thorough() {
@@ -125,13 +161,33 @@ func TestVerif_C12(t *testing.T) {
 							st.removeAbandoned = true
 						}
 					}
-					repo, err := oracle.OpenOn(x.Ctx, pp.be, repository.Options{})
+					var top backend.Backend = pp.be
+					if pp.role == "stale-holder" {
+						pp.be.Alts = func(op *gatebe.Op) []string {
+							if op.Kind == "Save" && !pp.lockedAt.IsZero() {
+								if d := time.Since(pp.lockedAt); d > time.Minute && d < 22*time.Minute {
+									return []string{"err"} // the regular refreshes fail
+								}
+							}
+							return []string{"ok"}
+						}
+						top = &verifC12SlowBE{Backend: pp.be, p: pp}
+					}
+					repo, err := oracle.OpenOn(x.Ctx, top, repository.Options{})
 					if err != nil {
 						t.Fatalf("open: %v", err)
 					}
 					armed = true
 					x.Go(pp.name, func() {
 						defer func() { pp.done = true }()
+						if pp.role == "timed-unlocker" {
+							time.Sleep(31 * time.Minute)
+							_, _ = repository.RemoveStaleLocks(x.Ctx, repo)
+							return
+						}
+						if pp.role == "timed-late-locker" {
+							time.Sleep(32 * time.Minute)
+						}
 						if pp.role == "unlocker" {
 							// `restic unlock`: runs whenever the scheduler lets it
 							x.Gate(xplore.Event{Key: pp.name + ":start-unlock", Proc: pp.name, Kind: "start", Yield: true})
@@ -141,13 +197,28 @@ func TestVerif_C12(t *testing.T) {
 						if pp.role == "late-locker" {
 							x.Gate(xplore.Event{Key: pp.name + ":start", Proc: pp.name, Kind: "start", Yield: true})
 						}
-						unlock, lctx, err := repository.LockRepo(x.Ctx, repo, pp.exclusive, 6*time.Second, func(string) {}, func(string, ...any) {}) // 6s: retry once after 5s, last attempt at 6s (0 would make Go's select choose randomly between two ready timers)
+						unlock, lctx, err := repository.LockRepo(x.Ctx, repo, pp.exclusive, 6*time.Second, func(string) {}, func(f string, a ...any) {
+							if os.Getenv("VERIF_DEBUG_TRACE") != "" {
+								fmt.Fprintf(os.Stderr, "DBG %s log at %s: "+f, append([]any{pp.name, time.Now().Format("15:04:05")}, a...)...)
+							}
+						}) // 6s: retry once after 5s, last attempt at 6s (0 would make Go's select choose randomly between two ready timers)
 						pp.lockErr, pp.returned = err, true
 						if err != nil {
 							return
 						}
 						pp.lockCtx = lctx
 						pp.holding, pp.heldOnce = true, true
+						pp.lockedAt = time.Now()
+						if pp.role == "stale-holder" {
+							// works for 50 minutes unless it is told to stop
+							select {
+							case <-time.After(50 * time.Minute):
+							case <-lctx.Done():
+							}
+							pp.holding = false
+							unlock()
+							return
+						}
 						if pp.role == "timed-locker" {
 							// works for 12 minutes (two lock refreshes), then unlocks
 							select {
@@ -206,6 +277,14 @@ func TestVerif_C12(t *testing.T) {
 					st.bad = append(st.bad, fmt.Sprintf("leftover: %d lock file(s) remain after every process unlocked or gave up", n))
 				}
 			}
+			if sc.name == "stale-refresh-vs-unlock-vs-late-excl" && len(st.bad) > 0 && time.Duration(x.Stalls)*5*time.Minute > 15*time.Minute/2 {
+				// operations of this execution were stalled for more than the 7.5-minute margin between the
+				// refreshability timeout and the staleness limit: outside the statement's assumption ("no process
+				// stalls longer than that margin inside a single operation"); with the timed unlock / late locker
+				// of this scenario such a stall lets the lock be judged stale before the holder's forced refresh
+				r.Outcome(sc.name + " outside-stall-assumption")
+				st.bad = nil
+			}
 			if len(st.bad) > 0 {
 				kind := "other"
 				switch {
@@ -256,7 +335,7 @@ func verifC12Monitor(x *xplore.Exec) {
 	var holders []*verifC12Proc
 	created := 0
 	for _, p := range st.procs {
-		if p.holding && p.lockCtx != nil && p.lockCtx.Err() == nil {
+		if p.holding && p.lockCtx != nil && p.lockCtx.Err() == nil && !p.frozen {
 			holders = append(holders, p)
 		}
 	}
@@ -269,6 +348,9 @@ func verifC12Monitor(x *xplore.Exec) {
 					names = append(names, fmt.Sprintf("%s(exclusive=%v)", o.name, o.exclusive))
 				}
 				msg := fmt.Sprintf("conflict at step %d: %s believe they hold their locks at the same time", x.StepNo, strings.Join(names, ", "))
+				if os.Getenv("VERIF_DEBUG_TRACE") != "" {
+					fmt.Fprintf(os.Stderr, "DBG %s at %s\n", msg, time.Now().Format("15:04:05"))
+				}
 				if len(st.bad) == 0 || !strings.HasPrefix(st.bad[0], "conflict") {
 					st.bad = append([]string{msg}, st.bad...)
 				}
